@@ -270,6 +270,7 @@ static Plan gen_C04(uint64_t seed, Rng &r) {
         NodeCfg n = rnd_node(r, {GLUE_BARE, GLUE_DARWIN, GLUE_DARWIN});
         n.wifi = r.chance(0.5);
         if (p.family == 1) n.failmask = (uint32_t)r.next() & (G_ALL & ~G_MTU) & (r.chance(0.5) ? (uint32_t)r.next() : 0xFFFFFFFFu);
+        if (i == 0 && r.chance(0.06)) n.null_ctx = true; // the port's handle for this interface is the NULL pointer (a handle is opaque: the attributes are what the getters say)
         p.nodes.push_back(n);
     }
     int nops = (int)r.range(2, 25);
@@ -308,6 +309,18 @@ static Plan gen_C05(uint64_t seed, Rng &r, uint64_t index) {
     }
     int nn = 1 + (int)r.below(2);
     for (int i = 0; i < nn; i++) p.nodes.push_back(rnd_node(r, {GLUE_BARE, GLUE_BARE, GLUE_LEGACY, GLUE_DARWIN}));
+    if (r.chance(0.03)) { // the observation record is filled to (and past) its bound while a mapper is active: no amount of Probe traffic releases the mapper
+        p.family = 10;
+        p.nodes.resize(1);
+        p.nodes[0].proc_us = 0;
+        uint16_t g = rnd_gen(r);
+        p.ops.push_back(mk(OP_DISCOVER, 5, {0, -1, 0, g, rnd_seq(r), 0, 0, 0}));
+        p.ops.push_back(mk(OP_FLOOD, 5, {r.pickl({1022, 1023, 1024, 1025, 1026, 1100, 2050}), 50000, 0, 0, 0}));
+        int tail = (int)r.range(2, 6);
+        for (int k = 0; k < tail; k++) p.ops.push_back(mk(OP_DISCOVER, (uint32_t)r.range(1, 20), {(int64_t)(k % 2 ? 0 : 1 + (int)r.below(2)), -1, (int64_t)r.below(2), k % 2 ? (int64_t)g : (int64_t)rnd_gen(r), rnd_seq(r), 0, 0, 0}));
+        p.tail_ms = 100;
+        return p;
+    }
     if (r.chance(0.04)) { // one mapper keeps its session alive for a long time (N openers without a Reset), then a second station tries to take over
         p.family = 7;
         p.nodes.resize(1);
@@ -407,6 +420,12 @@ static Plan gen_C06(uint64_t seed, Rng &r) {
             size_t carried = r.chance(0.5) ? cnt : (size_t)r.range(1, 4);
             o.blob.resize(carried * 14);
             o.a[4] = r.pickl({(int64_t)carried + 1, (int64_t)carried * 2, 0x7FFF, 0xFFFF, (int64_t)maxfit + 1, (int64_t)maxfit});
+        }
+        if (nem > 1 && e + 1 < nem && r.chance(0.15)) { // a transmit or an allocation fails while this Emit is executed (the last frame, the first, any): the Emits that follow are ordinary Emits
+            Fault f;
+            if (r.chance(0.5)) { f.kind = F_SENDFAIL; f.a = r.chance(0.5) ? (int64_t)1 << std::min<size_t>(cnt - 1, 62) : (r.chance(0.5) ? 1 : (int64_t)(r.next() >> 2)); }
+            else { f.kind = F_ALLOCFAIL; f.a = r.chance(0.5) ? (int64_t)cnt : r.range(1, (int64_t)cnt + 1); f.b = 1; }
+            o.f.push_back(f);
         }
         p.ops.push_back(o);
         if (r.chance(0.3)) p.ops.push_back(rnd_lan_op(r, p, m, 3, mapper));
@@ -716,7 +735,8 @@ static void keepalive_ops(Rng &r, Plan &p, int node_count) {
         int x = (int)r.below(10);
         if (x < 6) { if (r.chance(0.3)) xid[m] = r.chance(0.1) ? 0 : (int64_t)rnd_seq(r); Op o = mk(OP_DISCOVER, dt, {m, -1, 0, gen[m], xid[m], 1, r.range(0, 3), r.chance(0.6) ? -1 : 0}); o.blob = {(uint8_t)r.below((uint64_t)node_count)}; p.ops.push_back(o); }
         else if (x < 8) p.ops.push_back(mk(OP_HELLO, dt, {5, rnd_gen(r), 0, 1, 0, 0}));
-        else if (x < 9) p.ops.push_back(mk(OP_QUERY, dt, {m, -1, 0, rnd_seq(r), 0}));
+        else if (x < 9 && r.chance(0.5)) p.ops.push_back(mk(OP_QUERY, dt, {m, -1, 0, rnd_seq(r), 0}));
+        else if (x < 9) { Op e = mk(OP_EMIT, dt, {m, -1, 0, rnd_seq(r), -1, 0}); e.blob = rnd_descs(r, (size_t)r.range(1, 2)); p.ops.push_back(e); } // the mapping engine sits in its Emit state until the next frame: ticks in that state expire sessions like any other tick
         else p.ops.push_back(mk(OP_RESET, dt, {m, -1, r.chance(0.8) ? 0 : 1, r.chance(0.5) ? 1 : 0, 0, 0}));
     }
     // afterwards everybody shows up again, with old and new transaction ids
@@ -777,6 +797,12 @@ static Plan gen_C11(uint64_t seed, Rng &r) {
                 if (r.chance(0.6)) o.a[7] = -1; // and it is nowhere else in the list
             }
             p.ops.push_back(o);
+            if (r.chance(0.04)) { // the host is suspended for hours (no tick runs); a neighbour's Hello is waiting in the socket when it wakes up, then the mapper asks again under a new number
+                p.ops.push_back(mk(OP_STALL, r.chance(0.6) ? (uint32_t)r.range(6000, 25000) : 1, {0, 1000 * (r.pickl({65535, 65536, 65536, 131072, 4294967, 86400, 3600}) + r.range(0, 61)) + r.range(0, 999)})); // often after a pause in which the mapping engine has gone idle on its own
+                p.ops.push_back(mk(OP_HELLO, (uint32_t)r.range(1, 10), {5, rnd_gen(r), 0, 1, 0, 0}));
+                Op again = o; again.dt = (uint32_t)r.range(1, 30); again.a[4] = rnd_seq(r); again.f.clear();
+                p.ops.push_back(again);
+            }
         } else if (x < 9) p.ops.push_back(mk(OP_RESET, rnd_dt(r), {mapper, -1, r.chance(0.8) ? 0 : 1, r.chance(0.5) ? 1 : 0, 0, 0}));
         else if (x < 10) p.ops.push_back(mk(OP_HELLO, rnd_dt(r), {5, rnd_gen(r), 0, 1, 0, 0}));
         else { Op o = mk(OP_STRAY, rnd_dt(r), {(int64_t)r.below(4), r.chance(0.7) ? 0 : r.range(0, 255), r.chance(0.5) ? r.range(0, 13) : r.range(0, 255), r.chance(0.5) ? 0 : -1, rnd_seq(r), 0, 0}); o.blob.resize(r.below(30)); for (auto &c : o.blob) c = (uint8_t)r.next(); p.ops.push_back(o); }
@@ -1048,6 +1074,13 @@ static Plan gen_C15(uint64_t seed, Rng &r, uint64_t index) {
 
 static Plan gen_C16(uint64_t seed, Rng &r) {
     Plan p = base_plan("C16", seed, r);
+    if (r.chance(0.1)) { // the table inside the documented flow: a long-lived session (Discovers, Queries, Emits, Hellos) in which single sessions pass their expiry while the flow stays busy
+        p.family = 5;
+        p.nodes.push_back(rnd_node(r, {GLUE_DARWIN}));
+        keepalive_ops(r, p, 1);
+        p.tail_ms = (uint32_t)r.range(500, 3000);
+        return p;
+    }
     api_prelude(p, r);
     p.t0 += (uint64_t)r.range(0, 999);
     int nkeys = (int)r.range(20, 40);
@@ -1192,6 +1225,22 @@ static Plan gen_C19(uint64_t seed, Rng &r, const std::string &tier) {
     if (p.family != 0 && r.chance(0.35)) { int extra = (int)r.range(1, 3); for (int i = 0; i < extra; i++) p.nodes.push_back(rnd_node(r, {GLUE_BARE, GLUE_LEGACY})); } // several interface contexts in one process
     int mapper = 0;
     p.ops.push_back(mk(OP_DISCOVER, 5, {mapper, -1, 0, rnd_gen(r), rnd_seq(r), 0, 0, 0}));
+    if (p.family == 0 && r.chance(0.12)) { // the record is full; again and again a Query's answer is refused by the link and fresh sources keep arriving: the bound is the bound
+        p.family = 9;
+        p.nodes[0].proc_us = 0;
+        int64_t base = 10000;
+        p.ops.push_back(mk(OP_FLOOD, 5, {r.pickl({1024, 1030, 1100}), base, 0, 0, 0})); base += 1100;
+        int rounds = (int)r.range(8, 40);
+        for (int k = 0; k < rounds; k++) {
+            Op q = mk(OP_QUERY, (uint32_t)r.range(2, 20), {mapper, -1, 0, rnd_seq(r), 0});
+            if (r.chance(0.85)) { Fault f; f.kind = F_SENDFAIL; f.a = 1; q.f.push_back(f); }
+            p.ops.push_back(q);
+            int64_t c = r.range(60, 500);
+            p.ops.push_back(mk(OP_FLOOD, (uint32_t)r.range(0, 20), {c, base, 0, 0, 0})); base += c;
+        }
+        if (r.chance(0.5)) p.ops.push_back(mk(OP_RESET, 10, {mapper, -1, 0, 0, 0, 0}));
+        return p;
+    }
     if (p.family == 0) { // flood of pairwise distinct sources, no Query
         int64_t total = tier == "thorough" ? (r.chance(0.3) ? 100000 : r.range(2000, 30000)) : (r.chance(0.2) ? 20000 : r.range(500, 6000));
         int64_t base = 10000;
